@@ -126,6 +126,23 @@ fn compare(a: &ChainBox, b: &ChainBox, w: &World, when: &str) -> PResult {
 			(Err(_), Err(_)) => {}
 			_ => fail!("twin-block-sums-presence", "{}: stored sums of best-chain block at height {} present on one side only", when, hdr_a.height),
 		}
+		// the kernels of the best-chain block are still readable from the kernel MMR (TxHashSet::find_kernel;
+		// not Chain::get_kernel_height, whose height search walks the HEADER chain and does not terminate
+		// when the header head sits on another fork — see DESIGN §9.3, outside this property)
+		if hdr_a.height > 0 {
+			if let Ok(blk) = a.c().get_block(&h) {
+				for k in blk.kernels() {
+					for (name, cb) in [("A", a), ("B", b)] {
+						let ts = cb.c().txhashset();
+						let found = ts.read().find_kernel(&k.excess, None, None);
+						match found {
+							Some((fk, _)) => ensure!(fk.excess == k.excess, "twin-kernel-data-wrong", "{}: node {}: find_kernel returned another kernel", when, name),
+							None => fail!("twin-kernel-data-missing", "{}: node {}: kernel {:?} of the best-chain block at height {} is not found in the kernel MMR", when, name, k.excess, hdr_a.height),
+						}
+					}
+				}
+			}
+		}
 		let (ia, ib) = (
 			a.c().store().batch().and_then(|bt| bt.get_spent_index(&h)).map_err(|e| format!("{:?}", e)),
 			b.c().store().batch().and_then(|bt| bt.get_spent_index(&h)).map_err(|e| format!("{:?}", e)),
@@ -476,7 +493,7 @@ pub fn run_case(ctx: &Ctx, case: &Case, counting: bool) -> PResult {
 pub fn run(ctx: &Ctx) -> HResult<()> {
 	init_global();
 	let ev = &ctx.ev;
-	ev.rule("histories of good blocks (incl. forks/reorgs, reopen) interleaved with bad inputs failing at every validation stage (PoW, header rule, body validation, coinbase rule, UTXO checks, sums, root/size mismatch after the block was applied, bad header batches, failing validate_tx through the read-only extension) and valid losing-fork blocks; twin chain B never sees the bad inputs; after every step head, roots, full unspent scan, stored sums and spend records of the last 12 best-chain blocks and the result of every later delivery are compared, finally validate(false) and reopen on both; non-trivial = a rejection at or after the UTXO stage (or a losing fork) followed by accepted blocks including a reorg; distinct by (set of stages, continuation length)");
+	ev.rule("histories of good blocks (incl. forks/reorgs, reopen) interleaved with bad inputs failing at every validation stage (PoW, header rule, body validation, coinbase rule, UTXO checks, sums, root/size mismatch after the block was applied, bad header batches, failing validate_tx through the read-only extension) and valid losing-fork blocks; twin chain B never sees the bad inputs; after every step head, roots, full unspent scan, stored sums, spend records and kernel-MMR lookups of the last 12 best-chain blocks and the result of every later delivery are compared, finally validate(false) and reopen on both; non-trivial = a rejection at or after the UTXO stage (or a losing fork) followed by accepted blocks including a reorg; distinct by (set of stages, continuation length)");
 	ev.assume("both twins run the same code: the oracle is divergence between them plus the replay model scan of C02; header_head and stored fork headers are excluded as the statement allows");
 	if let Some((case, f)) = pbt_proc(ctx, "history", ctx.n(480, 8000), 16) {
 		ctx.report("history", &f.sig, case, &f.msg);
